@@ -26,20 +26,26 @@ def lines_of(cmd, env=None):
 
 
 def partitioned(binary, extra, first, n, parts, tier):
-    """runs seeds first..first+n-1 split over 'parts' processes (arithmetic progressions), returns {seed: line}"""
-    def one(w):
-        cnt = (n - w + parts - 1) // parts
-        res = {}
-        done = 0
-        while done < cnt:   # chunks of 100 runs per process, as the checks do
-            c = min(100, cnt - done)
-            res.update(lines_of(["taskset", "-c", str(w % NPROC), binary] + extra + ["--seeds", str(first + w + done * parts), str(c), str(parts), "--tier", str(tier)]))
-            done += c
-        return res
-    out = {}
+    """runs seeds first..first+n-1 split over 'parts' workers (arithmetic progressions, harness processes restarted after a fatal run exactly
+    as the checks do), returns {seed: canonical result line}"""
+    import orch
+    orch.MAX_VIOLATIONS = 10 ** 9   # runs that end in a (known) finding are part of the comparison: never stop early
+    b = binary if isinstance(binary, (list, tuple)) else (binary, list(extra))
+    if not isinstance(binary, (list, tuple)):
+        b = (binary, list(extra))
+    ws = [orch.Worker(b, "selftest", tier, first + w, (n - w + parts - 1) // parts, parts, None, cpu=w % NPROC, chunk=100) for w in range(parts)]
     with concurrent.futures.ThreadPoolExecutor(max_workers=min(parts, NPROC)) as ex:
-        for r in ex.map(one, range(parts)):
-            out.update(r)
+        list(ex.map(lambda w: w.go(), ws))
+    out = {}
+    for w in ws:
+        for r in w.records:
+            r = dict(r)
+            for k in ("text", "plan", "cfg", "variant", "detail", "decisions"):
+                r.pop(k, None)
+            # the numbers of instrumented accesses checked by the race variant count what the *process* executed (a container that kept its
+            # capacity from an earlier run performs fewer writes): reach counters, not decisions; everything else must be identical
+            r["ctr"] = {k: v for k, v in r.get("ctr", {}).items() if not k.startswith("race_")}
+            out[r["seed"]] = json.dumps(r, sort_keys=True)
     return out
 
 
